@@ -128,6 +128,32 @@ def isFinal (t : TxAbs) (height time : Nat) : Bool :=
   else if t.lockTime < (if t.lockTime < lockTimeThreshold then height else time) then true
   else t.seqs.all (fun s => s = maxSeq)
 
+/-! ### policy arithmetic (mempool/policy.go) -/
+
+/-- Bitcoin's compact-size length of `n` -/
+def varIntLen (n : Nat) : Nat := if n < 0xfd then 1 else if n ≤ 0xffff then 3 else if n ≤ 0xffffffff then 5 else 9
+
+/-- `GetDustThreshold`: three times the bytes needed to create and spend the output -/
+def dustThreshold (pkLen : Nat) (witnessProgram : Bool) : Nat :=
+  3 * ((8 + varIntLen pkLen + pkLen) + 41 + (if witnessProgram then 107 / 4 else 107))
+
+/-- `IsDust` (Go int64 division truncates towards zero) -/
+def isDust (value : Int) (pkLen : Nat) (witnessProgram unspendable : Bool) (minRelay : Int) : Bool :=
+  unspendable || decide (Int.tdiv (value * 1000) (dustThreshold pkLen witnessProgram) < minRelay)
+
+/-- `GetTxVirtualSize` from the stripped and the full serialize size -/
+def virtualSize (stripped total : Nat) : Nat := (stripped * 3 + total + 3) / 4
+
+/-- serialize sizes of a transaction with `nIn` inputs (script lengths `sigLens`, one witness item of
+length `witLens[i]` each, 0 = empty stack) and outputs with script lengths `pkLens` -/
+def strippedSize (sigLens pkLens : List Nat) : Nat :=
+  4 + varIntLen sigLens.length + (sigLens.map (fun l => 36 + varIntLen l + l + 4)).sum +
+  varIntLen pkLens.length + (pkLens.map (fun l => 8 + varIntLen l + l)).sum + 4
+
+def witnessSize (witLens : List Nat) : Nat :=
+  if witLens.all (· = 0) then 0
+  else 2 + (witLens.map (fun l => if l = 0 then 1 else 1 + varIntLen l + l)).sum
+
 /-! ### main pool primitives -/
 
 /-- `addTransaction`: pool entry plus one spend-index entry per input (Go map assignment overwrites). -/
